@@ -265,9 +265,19 @@ def miri_c16(pid, tier, seed):
 
 
 # --------------------------------------------------------------------------- libFuzzer
-def fuzz_c01(pid, tier, seed):
+def fuzz(pid, tier, seed):
     import fuzzphase
     return fuzzphase.run(pid, tier, seed)
+
+
+def miri_cross(pid, tier, seed):
+    """The property's reduced (Miri) tier on a 32-bit big-endian target: cfg(target_endian) / cfg(target_pointer_width)
+    dependent code can hide behind any property."""
+    return _miri_phase(pid, seed, ["mips"], nshards=16)
+
+
+def miri_cross_be64(pid, tier, seed):
+    return _miri_phase(pid, seed, ["s390x", "mips"], nshards=16)
 
 
 # --------------------------------------------------------------------------- setup
